@@ -183,11 +183,11 @@ Proof.
 Qed.
 
 Lemma fail_all_In : forall t cs k cr',
-  In (k, cr') (fail_all t cs) -> exists cr, In (k, cr) cs /\ ckey cr' = ckey cr /\ cstat cr' = cstat cr.
+  In (k, cr') (fail_all t cs) -> exists cr, In (k, cr) cs /\ ckey cr' = ckey cr /\ cdraw cr' = cdraw cr /\ cstat cr' = cstat cr.
 Proof.
   induction t as [|[i h] r IH]; intros cs k cr' H; cbn [fail_all] in H.
   - exists cr'. auto.
-  - destruct (IH _ _ _ H) as (cr1 & Hin & Hk & Hs).
+  - destruct (IH _ _ _ H) as (cr1 & Hin & Hk & Hd & Hs).
     destruct (In_a_upd _ _ _ zeqb_spec _ _ _ _ _ Hin) as (cr & Hin' & [->|[_ ->]]).
     + exists cr. auto.
     + exists cr. cbn in *. auto.
@@ -197,16 +197,19 @@ Qed.
 Record inv (c : cfg) (st : mstate) : Prop := {
   i_pend : forall i k, In (i, k) (pending st) ->
            exists cr, c_find k st = Some cr /\ ckey cr = i /\ cstat cr = SStored /\ cbox cr = None;
-  i_infl : forall i k, In (i, Some k) (inflight st) -> exists cr, c_find k st = Some cr /\ ckey cr = i;
+  i_infl : forall i k, In (i, Some k) (inflight st) ->
+           exists cr, c_find k st = Some cr /\ ckey cr = i /\ cenq cr = true;
+  i_answ : forall k, mem_z k (answerable st) = true -> exists cr, c_find k st = Some cr /\ cenq cr = true;
   i_alloc : forall k cr, c_find k st = Some cr -> cstat cr = SAlloc -> cbox cr = None;
   i_ids : forall k cr, In (k, cr) (callers st) ->
-          0 < k <= counter st /\ snd (ckey cr) = index_of k (mask c);
+          0 < k <= counter st /\ 0 < cdraw cr <= counter st /\ snd (ckey cr) = index_of (cdraw cr) (mask c);
   i_cnt : 0 <= counter st
 }.
 
+(* two calls that drew the same index are never both past the harmless stage *)
 Definition distinct (st : mstate) : Prop :=
   forall k1 k2 c1 c2, c_find k1 st = Some c1 -> c_find k2 st = Some c2 -> k1 <> k2 ->
-    ckey c1 = ckey c2 -> dead st k1 c1 = true \/ dead st k2 c2 = true.
+    ckey c1 = ckey c2 -> harmless st k1 c1 = true \/ harmless st k2 c2 = true.
 
 Definition own (st : mstate) : Prop :=
   forall k cr k', c_find k st = Some cr ->
@@ -234,26 +237,28 @@ Local Arguments index_of : simpl never.
 Local Arguments Z.eqb : simpl never.
 Local Arguments Z.add : simpl never.
 
-(* a step that only rewrites caller k's record with f (keeping keys; table and replies shrink
+(* a step that only rewrites caller k's record with f (keeping key and draw; table and replies shrink
    or stay) *)
 Lemma inv_upd_generic c st k cr f t' fl' ans' :
   inv c st -> c_find k st = Some cr ->
-  (forall x, ckey (f x) = ckey x) ->
+  (forall x, ckey (f x) = ckey x) -> (forall x, cdraw (f x) = cdraw x) ->
+  (forall x, cenq x = true -> cenq (f x) = true) ->
   (cstat (f cr) = SAlloc -> cbox (f cr) = None) ->
   (forall i k', In (i, k') t' ->
      (In (i, k') (pending st) /\ (k' = k -> cstat (f cr) = SStored /\ cbox (f cr) = None)) \/
      (k' = k /\ i = ckey cr /\ cstat (f cr) = SStored /\ cbox (f cr) = None)) ->
-  (forall i k', In (i, Some k') fl' -> In (i, Some k') (inflight st) \/ (k' = k /\ i = ckey cr)) ->
+  (forall i k', In (i, Some k') fl' -> In (i, Some k') (inflight st)) ->
+  (forall k', mem_z k' ans' = true -> mem_z k' (answerable st) = true \/ (k' = k /\ cenq (f cr) = true)) ->
   inv c {| counter := counter st; pending := t'; callers := a_upd Z.eqb k f (callers st);
            answerable := ans'; inflight := fl' |}.
 Proof.
-  intros I Hk Hkey Hal Ht Hfl.
+  intros I Hk Hkey Hdraw Henq Hal Ht Hfl Hans.
   assert (Hfind : forall k', c_find k' {| counter := counter st; pending := t'; callers := a_upd Z.eqb k f (callers st);
                                       answerable := ans'; inflight := fl' |}
                          = if k' =? k then Some (f cr) else c_find k' st).
   { intros k'. unfold c_find. cbn [callers]. rewrite (a_find_upd _ _ _ zeqb_spec).
     destruct (k' =? k); [|reflexivity]. unfold c_find in Hk. rewrite Hk. reflexivity. }
-  split; cbn [pending inflight counter].
+  split; cbn [pending inflight counter answerable].
   - intros i k' Hin. destruct (Ht i k' Hin) as [(Hin0 & Hsame)|(-> & -> & Hs & Hb)].
     + destruct (i_pend _ _ I i k' Hin0) as (cr' & Hc & Hki & Hs & Hb).
       rewrite Hfind. destruct (k' =? k) eqn:E.
@@ -261,20 +266,23 @@ Proof.
         destruct (Hsame eq_refl). exists (f cr). repeat split; auto. rewrite Hkey. exact Hki.
       * exists cr'. auto.
     + rewrite Hfind, Z.eqb_refl. exists (f cr). repeat split; auto.
-  - intros i k' Hin. rewrite Hfind. destruct (Hfl _ _ Hin) as [Hin0|(-> & ->)].
-    + destruct (i_infl _ _ I i k' Hin0) as (cr' & Hc & Hki).
-      destruct (k' =? k) eqn:E.
-      * apply Z.eqb_eq in E. subst k'. rewrite Hk in Hc. inversion Hc; subst cr'.
-        exists (f cr). split; [reflexivity|]. rewrite Hkey. exact Hki.
+  - intros i k' Hin. rewrite Hfind. destruct (i_infl _ _ I i k' (Hfl _ _ Hin)) as (cr' & Hc & Hki & He).
+    destruct (k' =? k) eqn:E.
+    + apply Z.eqb_eq in E. subst k'. rewrite Hk in Hc. inversion Hc; subst cr'.
+      exists (f cr). split; [reflexivity|]. rewrite Hkey. auto.
+    + exists cr'. auto.
+  - intros k' Hm. rewrite Hfind. destruct (Hans _ Hm) as [Hm0|(-> & He)].
+    + destruct (i_answ _ _ I _ Hm0) as (cr' & Hc & He). destruct (k' =? k) eqn:E.
+      * apply Z.eqb_eq in E. subst k'. rewrite Hk in Hc. inversion Hc; subst cr'. exists (f cr). auto.
       * exists cr'. auto.
-    + rewrite Z.eqb_refl. exists (f cr). split; [reflexivity|apply Hkey].
+    + rewrite Z.eqb_refl. exists (f cr). auto.
   - intros k' cr'. rewrite Hfind. destruct (k' =? k).
     + intros Hc. inversion Hc; subst. exact Hal.
     + apply (i_alloc _ _ I).
   - cbn [callers]. intros k' cr' Hin.
     destruct (In_a_upd _ _ _ zeqb_spec _ _ _ _ _ Hin) as (cr0 & Hin0 & [->|[-> ->]]).
     + apply (i_ids _ _ I _ _ Hin0).
-    + rewrite Hkey. apply (i_ids _ _ I _ _ Hin0).
+    + rewrite Hkey, Hdraw. apply (i_ids _ _ I _ _ Hin0).
   - apply (i_cnt _ _ I).
 Qed.
 
@@ -285,6 +293,9 @@ Lemma upd_caller_eta k f st :
                          answerable := answerable st; inflight := inflight st |}.
 Proof. reflexivity. Qed.
 
+Lemma mem_z_cons k x l : mem_z k (x :: l) = (x =? k) || mem_z k l.
+Proof. reflexivity. Qed.
+
 Lemma inv_step_preserved c st l st' : inv c st -> step c st l = Some st' -> inv c st'.
 Proof.
   intros I H. destruct l as [dest|k|k|k|k|i|n|k|k|].
@@ -292,11 +303,14 @@ Proof.
     cbn [step] in H. injection H as <-.
     assert (Hnew : forall k cr, c_find k st = Some cr -> (k =? counter st + 1) = false).
     { intros k cr Hk. pose proof (c_find_le _ _ _ _ I Hk). apply Z.eqb_neq. lia. }
-    split; cbn [pending inflight callers counter].
+    split; cbn [pending inflight callers counter answerable].
     + intros i k Hf. destruct (i_pend _ _ I i k Hf) as (cr & Hc & Hr).
       exists cr. split; [|exact Hr]. unfold c_find. cbn [callers a_find].
       rewrite (Hnew _ _ Hc). exact Hc.
     + intros i k Hin. destruct (i_infl _ _ I i k Hin) as (cr & Hc & Hr).
+      exists cr. split; [|exact Hr]. unfold c_find. cbn [callers a_find].
+      rewrite (Hnew _ _ Hc). exact Hc.
+    + intros k Hm. destruct (i_answ _ _ I k Hm) as (cr & Hc & Hr).
       exists cr. split; [|exact Hr]. unfold c_find. cbn [callers a_find].
       rewrite (Hnew _ _ Hc). exact Hc.
     + intros k cr. unfold c_find. cbn [callers a_find].
@@ -304,16 +318,45 @@ Proof.
       * intros Hc _. inversion Hc; subst. reflexivity.
       * apply (i_alloc _ _ I).
     + intros k cr [Hh|Hin].
-      * inversion Hh; subst. cbn [ckey snd]. pose proof (i_cnt _ _ I). split; [lia|reflexivity].
-      * destruct (i_ids _ _ I k cr Hin) as [H1 H2]. split; [lia|exact H2].
+      * inversion Hh; subst. cbn [ckey cdraw snd]. pose proof (i_cnt _ _ I). repeat split; try lia.
+      * destruct (i_ids _ _ I k cr Hin) as (H1 & H2 & H3). repeat split; try lia; try exact H3.
     + pose proof (i_cnt _ _ I). lia.
   - (* LStore *)
     cbn [step] in H. destruct (c_find k st) as [cr|] eqn:E; [|discriminate].
-    destruct (cstat cr) eqn:Es; try discriminate. injection H as <-.
-    apply (inv_upd_generic c st k cr (with_stat SStored) _ _ _ I E); cbn; auto; try discriminate.
-    intros i k' Hin. apply (In_a_set _ _ _ keqb_spec) in Hin. destruct Hin as [(-> & ->)|(Hin & Hne)].
-    + right. repeat split; auto. apply (i_alloc _ _ I k cr E Es).
-    + left. split; [exact Hin|]. intros ->. split; [reflexivity|]. apply (i_alloc _ _ I k cr E Es).
+    destruct (cstat cr) eqn:Es; try discriminate.
+    destruct (skip_pending c && _) eqn:Esk.
+    + (* refused: redraw *)
+      destruct (cenq cr) eqn:Eq; [discriminate|]. injection H as <-.
+      assert (Hfind : forall k', c_find k' {| counter := counter st + 1; pending := pending st;
+                                          callers := a_upd Z.eqb k (with_draw (counter st + 1) (mask c)) (callers st);
+                                          answerable := answerable st; inflight := inflight st |}
+                             = if k' =? k then Some (with_draw (counter st + 1) (mask c) cr) else c_find k' st).
+      { intros k'. unfold c_find. cbn [callers]. rewrite (a_find_upd _ _ _ zeqb_spec).
+        destruct (k' =? k); [|reflexivity]. unfold c_find in E. rewrite E. reflexivity. }
+      split; cbn [pending inflight counter answerable].
+      * intros i k' Hin. destruct (i_pend _ _ I i k' Hin) as (cr' & Hc & Hr). rewrite Hfind.
+        destruct (k' =? k) eqn:Ek; [|exists cr'; auto].
+        apply Z.eqb_eq in Ek. subst k'. rewrite E in Hc. inversion Hc; subst cr'. destruct Hr as (_ & Hs & _). congruence.
+      * intros i k' Hin. destruct (i_infl _ _ I i k' Hin) as (cr' & Hc & Hr). rewrite Hfind.
+        destruct (k' =? k) eqn:Ek; [|exists cr'; auto].
+        apply Z.eqb_eq in Ek. subst k'. rewrite E in Hc. inversion Hc; subst cr'. destruct Hr as (_ & He). congruence.
+      * intros k' Hm. destruct (i_answ _ _ I k' Hm) as (cr' & Hc & He). rewrite Hfind.
+        destruct (k' =? k) eqn:Ek; [|exists cr'; auto].
+        apply Z.eqb_eq in Ek. subst k'. rewrite E in Hc. inversion Hc; subst cr'. congruence.
+      * intros k' cr'. rewrite Hfind. destruct (k' =? k).
+        -- intros Hc _. inversion Hc; subst. cbn. apply (i_alloc _ _ I k cr E Es).
+        -- apply (i_alloc _ _ I).
+      * cbn [callers]. intros k' cr' Hin.
+        destruct (In_a_upd _ _ _ zeqb_spec _ _ _ _ _ Hin) as (cr0 & Hin0 & [->|[-> ->]]);
+          destruct (i_ids _ _ I _ _ Hin0) as (H1 & H2 & H3); pose proof (i_cnt _ _ I).
+        -- repeat split; try lia; try exact H3.
+        -- cbn [with_draw ckey cdraw snd]. repeat split; try lia.
+      * pose proof (i_cnt _ _ I). lia.
+    + injection H as <-.
+      apply (inv_upd_generic c st k cr (with_stat SStored) _ _ _ I E); cbn; auto; try discriminate.
+      intros i k' Hin. apply (In_a_set _ _ _ keqb_spec) in Hin. destruct Hin as [(-> & ->)|(Hin & Hne)].
+      * right. repeat split; auto. apply (i_alloc _ _ I k cr E Es).
+      * left. split; [exact Hin|]. intros ->. split; [reflexivity|]. apply (i_alloc _ _ I k cr E Es).
   - (* LEnq *)
     cbn [step] in H. destruct (c_find k st) as [cr|] eqn:E; [|discriminate].
     destruct (_ && _) eqn:Er; [|discriminate]. injection H as <-.
@@ -321,17 +364,21 @@ Proof.
     + apply (i_alloc _ _ I k cr E).
     + intros i k' Hin. left. split; [exact Hin|]. intros ->.
       destruct (i_pend _ _ I _ _ Hin) as (cr' & Hc & _ & Hs & Hb). rewrite E in Hc. inversion Hc; subst. auto.
+    + intros k' Hm. cbn [mem_z] in Hm. apply orb_true_iff in Hm. destruct Hm as [Hm|Hm]; [|left; exact Hm].
+      apply Z.eqb_eq in Hm. subst k'. right. auto.
   - (* LAnswer *)
-    cbn [step] in H. destruct (mem_z k (answerable st)); [|discriminate].
+    cbn [step] in H. destruct (mem_z k (answerable st)) eqn:Em; [|discriminate].
     destruct (c_find k st) as [cr|] eqn:E; [|discriminate]. injection H as <-.
-    split; cbn [pending inflight callers counter]; try apply I.
+    split; cbn [pending inflight callers counter answerable]; try apply I.
     intros i k' Hin. apply in_app_or in Hin. destruct Hin as [Hin|[Hin|[]]].
     + apply (i_infl _ _ I _ _ Hin).
-    + inversion Hin; subst. exists cr. auto.
+    + inversion Hin; subst. destruct (i_answ _ _ I _ Em) as (cr' & Hc & He). rewrite E in Hc. inversion Hc; subst.
+      exists cr'. auto.
   - (* LForget *)
-    cbn [step] in H. injection H as <-. split; cbn [pending inflight callers counter]; apply I.
+    cbn [step] in H. injection H as <-. split; cbn [pending inflight callers counter answerable]; try apply I.
+    intros k' Hm. apply (i_answ _ _ I). apply (mem_z_remove _ _ _ Hm).
   - (* LStray *)
-    cbn [step] in H. injection H as <-. split; cbn [pending inflight callers counter]; try apply I.
+    cbn [step] in H. injection H as <-. split; cbn [pending inflight callers counter answerable]; try apply I.
     intros i' k' Hin. apply in_app_or in Hin. destruct Hin as [Hin|[Hin|[]]]; [|discriminate].
     apply (i_infl _ _ I _ _ Hin).
   - (* LDeliver *)
@@ -346,10 +393,11 @@ Proof.
       * intros i' k' Hin. apply (In_a_remove _ _ _ keqb_spec) in Hin. destruct Hin as [Hin Hne].
         left. split; [exact Hin|]. intros ->.
         destruct (i_pend _ _ I _ _ Hin) as (cr' & Hc & Hk' & _). rewrite Hch in Hc. inversion Hc; subst. contradiction.
-    + split; cbn [pending inflight callers counter].
+    + split; cbn [pending inflight callers counter answerable].
       * intros i' k' Hin. apply (In_a_remove _ _ _ keqb_spec) in Hin. destruct Hin as [Hin Hne].
         apply (i_pend _ _ I _ _ Hin).
       * intros i' k' Hin. apply (i_infl _ _ I i' k' (Hsub _ Hin)).
+      * apply (i_answ _ _ I).
       * apply (i_alloc _ _ I).
       * apply (i_ids _ _ I).
       * apply (i_cnt _ _ I).
@@ -369,11 +417,14 @@ Proof.
     destruct (i_pend _ _ I _ _ Hin) as (cr' & Hc & Hk' & _). rewrite E in Hc. inversion Hc; subst. contradiction.
   - (* LClose *)
     cbn [step] in H. injection H as <-.
-    split; cbn [pending inflight callers counter set_pending set_callers].
+    split; cbn [pending inflight callers counter answerable set_pending set_callers].
     + intros i k [].
-    + intros i k Hin. destruct (i_infl _ _ I i k Hin) as (cr & Hc & Hk).
+    + intros i k Hin. destruct (i_infl _ _ I i k Hin) as (cr & Hc & Hk & He).
       unfold c_find in *. cbn [callers set_pending set_callers]. rewrite fail_all_find, Hc. cbn [option_map].
-      eexists. split; [reflexivity|]. destruct (holder_in k (pending st)); exact Hk.
+      eexists. split; [reflexivity|]. destruct (holder_in k (pending st)); auto.
+    + intros k Hm. destruct (i_answ _ _ I k Hm) as (cr & Hc & He).
+      unfold c_find in *. cbn [callers set_pending set_callers]. rewrite fail_all_find, Hc. cbn [option_map].
+      eexists. split; [reflexivity|]. destruct (holder_in k (pending st)); auto.
     + intros k cr'. unfold c_find. cbn [callers set_pending set_callers]. rewrite fail_all_find.
       destruct (a_find Z.eqb k (callers st)) as [cr|] eqn:Ec; [|discriminate].
       cbn [option_map]. intros Hc Hs. inversion Hc; subst cr'. clear Hc.
@@ -382,8 +433,8 @@ Proof.
         destruct (i_pend _ _ I _ _ Hin) as (cr' & Hc & _ & Hs' & _).
         unfold c_find in Hc. rewrite Ec in Hc. inversion Hc; subst cr'. cbn in Hs. congruence.
       * apply (i_alloc _ _ I k cr Ec Hs).
-    + intros k cr' Hin. destruct (fail_all_In _ _ _ _ Hin) as (cr & Hin0 & Hk & _).
-      rewrite Hk. apply (i_ids _ _ I _ _ Hin0).
+    + intros k cr' Hin. destruct (fail_all_In _ _ _ _ Hin) as (cr & Hin0 & Hk & Hd & _).
+      rewrite Hk, Hd. apply (i_ids _ _ I _ _ Hin0).
     + apply (i_cnt _ _ I).
 Qed.
 
@@ -420,115 +471,159 @@ Proof.
   apply has_reply_for_In. exists i. apply Hsub. exact Hin.
 Qed.
 
-(* every caller alive after a step was alive before it (or has just been created) *)
-Lemma live_back c st l st' k cr' :
-  step c st l = Some st' -> c_find k st' = Some cr' -> dead st' k cr' = false ->
-  (exists cr, c_find k st = Some cr /\ ckey cr = ckey cr' /\ dead st k cr = false) \/
-  (exists dest, l = LAlloc dest /\ k = counter st + 1 /\ ckey cr' = (dest, index_of (counter st + 1) (mask c))).
+Definition harmless_c (ans : list Z) (fl : list (key * option Z)) (k : Z) (s : status) (e : bool) : bool :=
+  match s with SAlloc => negb e | _ => false end || dead_c ans fl k s.
+
+Lemma harmless_eq st k cr : harmless st k cr = harmless_c (answerable st) (inflight st) k (cstat cr) (cenq cr).
+Proof. reflexivity. Qed.
+
+Lemma harmless_c_back ans fl ans' fl' k s e :
+  (mem_z k ans' = true -> mem_z k ans = true) ->
+  (has_reply_for k fl' = true -> has_reply_for k fl = true) ->
+  harmless_c ans' fl' k s e = false -> harmless_c ans fl k s e = false.
 Proof.
-  intros H Hc Hd. rewrite dead_eq in Hd.
+  intros Ha Hf H. unfold harmless_c in *. apply orb_false_iff in H. destruct H as [H1 H2].
+  rewrite H1. cbn [orb]. apply (dead_c_mono _ _ _ _ _ _ _ (or_introl eq_refl) Ha Hf H2).
+Qed.
+
+Lemma dead_harmless st k cr : dead st k cr = true -> harmless st k cr = true.
+Proof. intros H. unfold harmless. rewrite H. apply orb_true_r. Qed.
+
+(* every caller past the harmless stage after a step was so before it, under the same key -- or it is the
+   caller that this very step registers (LStore) or hands to the provider before registration (LEnq) *)
+Lemma nh_back c st l st' k cr' :
+  step c st l = Some st' -> c_find k st' = Some cr' -> harmless st' k cr' = false ->
+  exists cr, c_find k st = Some cr /\ ckey cr = ckey cr' /\
+    (harmless st k cr = false \/
+     (cstat cr = SAlloc /\ cenq cr = false /\ ((l = LStore k /\ registers c st cr = true) \/ l = LEnq k))).
+Proof.
+  intros H Hc Hd. rewrite harmless_eq in Hd.
   destruct l as [dest|k0|k0|k0|k0|i|n|k0|k0|].
   - cbn [step] in H. injection H as <-. unfold c_find in Hc. cbn [callers a_find] in Hc.
     cbn [answerable inflight] in Hd.
     destruct (k =? counter st + 1) eqn:E.
-    + right. apply Z.eqb_eq in E. inversion Hc; subst. exists dest. cbn. auto.
-    + left. exists cr'. auto.
-  - cbn [step] in H. destruct (c_find k0 st) as [cr|] eqn:E; [|discriminate].
-    destruct (cstat cr) eqn:Es; try discriminate. injection H as <-.
-    left. change (c_find k (upd_caller k0 (with_stat SStored) st) = Some cr') in Hc.
-    rewrite c_find_upd in Hc. cbn [answerable inflight set_pending upd_caller set_callers] in Hd.
-    destruct (k =? k0) eqn:Ek.
-    + apply Z.eqb_eq in Ek. subst k0. rewrite E in Hc. inversion Hc; subst cr'.
-      exists cr. repeat split; auto. rewrite dead_eq, Es. reflexivity.
+    + inversion Hc; subst cr'. cbn in Hd. discriminate.
     + exists cr'. auto.
   - cbn [step] in H. destruct (c_find k0 st) as [cr|] eqn:E; [|discriminate].
+    destruct (cstat cr) eqn:Es; try discriminate.
+    destruct (skip_pending c && _) eqn:Esk.
+    + destruct (cenq cr) eqn:Eq; [discriminate|]. injection H as <-.
+      unfold c_find in Hc. cbn [callers] in Hc. rewrite (a_find_upd _ _ _ zeqb_spec) in Hc.
+      cbn [answerable inflight] in Hd.
+      destruct (k =? k0) eqn:Ek.
+      * apply Z.eqb_eq in Ek. subst k0. unfold c_find in E. rewrite E in Hc. cbn in Hc. inversion Hc; subst cr'.
+        cbn in Hd. rewrite Es, Eq in Hd. discriminate.
+      * exists cr'. auto.
+    + injection H as <-.
+      change (c_find k (upd_caller k0 (with_stat SStored) st) = Some cr') in Hc.
+      rewrite c_find_upd in Hc. cbn [answerable inflight set_pending upd_caller set_callers] in Hd.
+      destruct (k =? k0) eqn:Ek.
+      * apply Z.eqb_eq in Ek. subst k0. rewrite E in Hc. inversion Hc; subst cr'.
+        exists cr. repeat split; auto. destruct (cenq cr) eqn:Eq.
+        -- left. rewrite harmless_eq. unfold harmless_c. rewrite Es, Eq. reflexivity.
+        -- right. repeat split; auto. left. split; [reflexivity|]. unfold registers. rewrite Esk. reflexivity.
+      * exists cr'. auto.
+  - cbn [step] in H. destruct (c_find k0 st) as [cr|] eqn:E; [|discriminate].
     destruct (_ && _) eqn:Er; [|discriminate]. injection H as <-.
-    left. change (c_find k (upd_caller k0 with_enq st) = Some cr') in Hc.
+    change (c_find k (upd_caller k0 with_enq st) = Some cr') in Hc.
     rewrite c_find_upd in Hc. cbn [answerable inflight upd_caller set_callers] in Hd.
     destruct (k =? k0) eqn:Ek.
     + apply Z.eqb_eq in Ek. subst k0. rewrite E in Hc. inversion Hc; subst cr'.
-      exists cr. repeat split; auto. rewrite dead_eq.
-      apply andb_true_iff in Er. destruct Er as [Er _].
-      destruct (cstat cr); [reflexivity|reflexivity|discriminate].
-    + exists cr'. repeat split; auto. rewrite dead_eq.
-      refine (dead_c_mono _ _ _ _ _ _ _ (or_introl eq_refl) _ _ Hd); [|auto].
+      exists cr. repeat split; auto.
+      apply andb_true_iff in Er. destruct Er as [Er Eq]. apply negb_true_iff in Eq.
+      destruct (cstat cr) eqn:Es; [|left; rewrite harmless_eq; unfold harmless_c; rewrite Es; reflexivity|discriminate].
+      right. auto.
+    + exists cr'. repeat split; auto. left. rewrite harmless_eq.
+      refine (harmless_c_back _ _ _ _ _ _ _ _ _ Hd); [|auto].
       cbn [mem_z]. rewrite Z.eqb_sym, Ek. auto.
   - cbn [step] in H. destruct (mem_z k0 (answerable st)) eqn:Em; [|discriminate].
     destruct (c_find k0 st) as [cr|] eqn:E; [|discriminate]. injection H as <-.
-    left. change (c_find k st = Some cr') in Hc. cbn [answerable inflight] in Hd.
-    exists cr'. repeat split; auto. rewrite dead_eq.
+    change (c_find k st = Some cr') in Hc. cbn [answerable inflight] in Hd.
+    exists cr'. repeat split; auto. left. rewrite harmless_eq.
     destruct (k =? k0) eqn:Ek.
-    + apply Z.eqb_eq in Ek. subst k0. unfold dead_c. destruct (cstat cr'); try reflexivity. rewrite Em. reflexivity.
-    + refine (dead_c_mono _ _ _ _ _ _ _ (or_introl eq_refl) _ _ Hd); [auto|].
+    + apply Z.eqb_eq in Ek. subst k0. unfold harmless_c in *. apply orb_false_iff in Hd. destruct Hd as [H1 _].
+      rewrite H1. cbn [orb]. unfold dead_c. destruct (cstat cr'); try reflexivity. rewrite Em. reflexivity.
+    + refine (harmless_c_back _ _ _ _ _ _ _ _ _ Hd); [auto|].
       rewrite has_reply_for_app. cbn [snd]. rewrite Z.eqb_sym, Ek, orb_false_r. auto.
-  - cbn [step] in H. injection H as <-. left. change (c_find k st = Some cr') in Hc.
-    cbn [answerable inflight] in Hd. exists cr'. repeat split; auto. rewrite dead_eq.
-    refine (dead_c_mono _ _ _ _ _ _ _ (or_introl eq_refl) _ _ Hd); [|auto]. apply mem_z_remove.
-  - cbn [step] in H. injection H as <-. left. change (c_find k st = Some cr') in Hc.
-    cbn [answerable inflight] in Hd. exists cr'. repeat split; auto. rewrite dead_eq.
-    refine (dead_c_mono _ _ _ _ _ _ _ (or_introl eq_refl) _ _ Hd); [auto|].
+  - cbn [step] in H. injection H as <-. change (c_find k st = Some cr') in Hc.
+    cbn [answerable inflight] in Hd. exists cr'. repeat split; auto. left. rewrite harmless_eq.
+    refine (harmless_c_back _ _ _ _ _ _ _ _ _ Hd); [|auto]. apply mem_z_remove.
+  - cbn [step] in H. injection H as <-. change (c_find k st = Some cr') in Hc.
+    cbn [answerable inflight] in Hd. exists cr'. repeat split; auto. left. rewrite harmless_eq.
+    refine (harmless_c_back _ _ _ _ _ _ _ _ _ Hd); [auto|].
     rewrite has_reply_for_app. cbn [snd]. rewrite orb_false_r. auto.
   - cbn [step] in H. destruct (take_nth n (inflight st)) as [[[i prov] rest]|] eqn:Et; [|discriminate].
     destruct (take_nth_In _ _ _ _ Et) as (_ & Hsub & _).
-    unfold t_load_delete in H. left.
+    unfold t_load_delete in H.
     destruct (a_find keqb i (pending st)) as [h|] eqn:Eh; injection H as <-.
     + rewrite upd_caller_eta in Hc, Hd. cbn [answerable inflight] in Hd.
       unfold c_find in Hc. cbn [callers] in Hc. rewrite (a_find_upd _ _ _ zeqb_spec) in Hc.
       destruct (k =? h) eqn:Ek.
       * destruct (a_find Z.eqb h (callers st)) as [crh|] eqn:Ech; [|discriminate].
-        apply Z.eqb_eq in Ek. subst h. cbn in Hc. inversion Hc; subst cr'. cbn [cstat with_box ckey] in *.
-        exists crh. repeat split; auto. rewrite dead_eq.
-        refine (dead_c_mono _ _ _ _ _ _ _ (or_introl eq_refl) _ _ Hd); [auto|]. apply has_reply_for_sub. exact Hsub.
-      * exists cr'. repeat split; auto. rewrite dead_eq.
-        refine (dead_c_mono _ _ _ _ _ _ _ (or_introl eq_refl) _ _ Hd); [auto|]. apply has_reply_for_sub. exact Hsub.
+        apply Z.eqb_eq in Ek. subst h. cbn in Hc. inversion Hc; subst cr'. cbn [cstat cenq with_box ckey] in *.
+        exists crh. repeat split; auto. left. rewrite harmless_eq.
+        refine (harmless_c_back _ _ _ _ _ _ _ _ _ Hd); [auto|]. apply has_reply_for_sub. exact Hsub.
+      * exists cr'. repeat split; auto. left. rewrite harmless_eq.
+        refine (harmless_c_back _ _ _ _ _ _ _ _ _ Hd); [auto|]. apply has_reply_for_sub. exact Hsub.
     + change (c_find k st = Some cr') in Hc. cbn [answerable inflight] in Hd.
-      exists cr'. repeat split; auto. rewrite dead_eq.
-      refine (dead_c_mono _ _ _ _ _ _ _ (or_introl eq_refl) _ _ Hd); [auto|]. apply has_reply_for_sub. exact Hsub.
+      exists cr'. repeat split; auto. left. rewrite harmless_eq.
+      refine (harmless_c_back _ _ _ _ _ _ _ _ _ Hd); [auto|]. apply has_reply_for_sub. exact Hsub.
   - cbn [step] in H. destruct (c_find k0 st) as [cr|] eqn:E; [|discriminate].
     destruct (cstat cr) eqn:Es; try discriminate. destruct (cbox cr) as [o|] eqn:Eb; [|discriminate].
-    injection H as <-. left.
+    injection H as <-.
     change (c_find k (upd_caller k0 (fun x => with_stat (SDone o) (with_box None x)) st) = Some cr') in Hc.
     rewrite c_find_upd in Hc. cbn [answerable inflight upd_caller set_callers] in Hd.
     destruct (k =? k0) eqn:Ek.
     + apply Z.eqb_eq in Ek. subst k0. rewrite E in Hc. inversion Hc; subst cr'.
-      exists cr. repeat split; auto. rewrite dead_eq, Es. reflexivity.
+      exists cr. repeat split; auto. left. rewrite harmless_eq. unfold harmless_c. rewrite Es. reflexivity.
     + exists cr'. auto.
   - cbn [step] in H. destruct (c_find k0 st) as [cr|] eqn:E; [|discriminate].
-    destruct (cstat cr) eqn:Es; try discriminate. injection H as <-. left.
+    destruct (cstat cr) eqn:Es; try discriminate. injection H as <-.
     change (c_find k (upd_caller k0 (with_stat (SDone OCancel)) st) = Some cr') in Hc.
     rewrite c_find_upd in Hc. cbn [answerable inflight set_pending upd_caller set_callers] in Hd.
     destruct (k =? k0) eqn:Ek.
     + apply Z.eqb_eq in Ek. subst k0. rewrite E in Hc. inversion Hc; subst cr'.
-      exists cr. repeat split; auto. rewrite dead_eq, Es. reflexivity.
+      exists cr. repeat split; auto. left. rewrite harmless_eq. unfold harmless_c. rewrite Es. reflexivity.
     + exists cr'. auto.
-  - cbn [step] in H. injection H as <-. left.
+  - cbn [step] in H. injection H as <-.
     unfold c_find in Hc. cbn [callers set_pending set_callers] in Hc. rewrite fail_all_find in Hc.
     cbn [answerable inflight set_pending set_callers] in Hd.
     destruct (a_find Z.eqb k (callers st)) as [cr|] eqn:Ec; [|discriminate]. cbn in Hc.
     exists cr. split; [exact Ec|].
-    inversion Hc; subst cr'. destruct (holder_in k (pending st)); cbn [ckey cstat with_box] in *; auto.
+    inversion Hc; subst cr'. destruct (holder_in k (pending st)); cbn [ckey cstat cenq with_box] in *; auto.
+Qed.
+
+Lemma others_harmless_spec st k cr k2 c2 :
+  others_harmless st k cr = true -> c_find k2 st = Some c2 -> k2 <> k -> ckey c2 = ckey cr ->
+  harmless st k2 c2 = true.
+Proof.
+  unfold others_harmless. rewrite forallb_forall. intros G H2 Hne Hk.
+  specialize (G (k2, c2) (c_find_In _ _ _ H2)). cbn [fst snd] in G.
+  rewrite Hk, keqb_refl in G. cbn [negb orb] in G.
+  destruct (k2 =? k) eqn:E; [apply Z.eqb_eq in E; contradiction|]. exact G.
 Qed.
 
 Lemma distinct_preserved c st l st' :
   distinct st -> no_reuse_step c st l = true -> step c st l = Some st' -> distinct st'.
 Proof.
   intros D G H k1 k2 c1 c2 H1 H2 Hne Hkey.
-  destruct (dead st' k1 c1) eqn:E1; [left; reflexivity|].
-  destruct (dead st' k2 c2) eqn:E2; [right; reflexivity|]. exfalso.
-  destruct (live_back _ _ _ _ _ _ H H1 E1) as [(o1 & Ho1 & Hk1 & Hl1)|(d1 & -> & -> & Hn1)];
-  destruct (live_back _ _ _ _ _ _ H H2 E2) as [(o2 & Ho2 & Hk2 & Hl2)|(d2 & Hl & Hk2 & Hn2)].
-  - destruct (D k1 k2 o1 o2 Ho1 Ho2 Hne) as [X|X]; congruence.
-  - subst l. cbn [no_reuse_step] in G. rewrite forallb_forall in G.
-    specialize (G (k1, o1) (c_find_In _ _ _ Ho1)). cbn [fst snd] in G.
-    rewrite Hl1, orb_false_r in G. apply negb_true_iff in G.
-    assert (ckey o1 = (d2, index_of (counter st + 1) (mask c))) by congruence.
-    rewrite H0, keqb_refl in G. discriminate.
-  - cbn [no_reuse_step] in G. rewrite forallb_forall in G.
-    specialize (G (k2, o2) (c_find_In _ _ _ Ho2)). cbn [fst snd] in G.
-    rewrite Hl2, orb_false_r in G. apply negb_true_iff in G.
-    assert (ckey o2 = (d1, index_of (counter st + 1) (mask c))) by congruence.
-    rewrite H0, keqb_refl in G. discriminate.
-  - congruence.
+  destruct (harmless st' k1 c1) eqn:E1; [left; reflexivity|].
+  destruct (harmless st' k2 c2) eqn:E2; [right; reflexivity|]. exfalso.
+  destruct (nh_back _ _ _ _ _ _ H H1 E1) as (o1 & Ho1 & Hk1 & R1).
+  destruct (nh_back _ _ _ _ _ _ H H2 E2) as (o2 & Ho2 & Hk2 & R2).
+  assert (Hkk : ckey o1 = ckey o2) by congruence.
+  destruct R1 as [R1|(S1 & Q1 & L1)]; destruct R2 as [R2|(S2 & Q2 & L2)].
+  - destruct (D k1 k2 o1 o2 Ho1 Ho2 Hne Hkk) as [X|X]; congruence.
+  - (* k2 is registered / handed over by this step; k1 was already past the harmless stage *)
+    assert (X : harmless st k1 o1 = true); [|congruence].
+    destruct L2 as [[-> Hr]| ->]; cbn [no_reuse_step] in G; rewrite Ho2 in G.
+    + rewrite Hr in G. apply (others_harmless_spec _ _ _ _ _ G Ho1 Hne Hkk).
+    + rewrite S2 in G. apply (others_harmless_spec _ _ _ _ _ G Ho1 Hne Hkk).
+  - assert (X : harmless st k2 o2 = true); [|congruence].
+    destruct L1 as [[-> Hr]| ->]; cbn [no_reuse_step] in G; rewrite Ho1 in G.
+    + rewrite Hr in G. apply (others_harmless_spec _ _ _ _ _ G Ho2 (not_eq_sym Hne) (eq_sym Hkk)).
+    + rewrite S1 in G. apply (others_harmless_spec _ _ _ _ _ G Ho2 (not_eq_sym Hne) (eq_sym Hkk)).
+  - destruct L1 as [[-> _]| ->]; destruct L2 as [[L2 _]|L2]; inversion L2; contradiction.
 Qed.
 
 Lemma own_preserved c st l st' :
@@ -541,11 +636,18 @@ Proof.
     + inversion Hc; subst cr'. cbn in Hr. destruct Hr; discriminate.
     + apply (O k cr' k' Hc Hr).
   - cbn [step] in H. destruct (c_find k0 st) as [cr|] eqn:E; [|discriminate].
-    destruct (cstat cr) eqn:Es; try discriminate. injection H as <-.
-    change (c_find k (upd_caller k0 (with_stat SStored) st) = Some cr') in Hc. rewrite c_find_upd in Hc.
-    destruct (k =? k0) eqn:Ek; [|apply (O k cr' k' Hc Hr)].
-    apply Z.eqb_eq in Ek. subst k0. rewrite E in Hc. inversion Hc; subst cr'. cbn in Hr.
-    destruct Hr as [Hr|Hr]; [|discriminate]. apply (O k cr k' E). left. exact Hr.
+    destruct (cstat cr) eqn:Es; try discriminate.
+    destruct (skip_pending c && _) eqn:Esk.
+    + destruct (cenq cr) eqn:Eq; [discriminate|]. injection H as <-.
+      unfold c_find in Hc. cbn [callers] in Hc. rewrite (a_find_upd _ _ _ zeqb_spec) in Hc.
+      destruct (k =? k0) eqn:Ek; [|apply (O k cr' k' Hc Hr)].
+      apply Z.eqb_eq in Ek. subst k0. unfold c_find in E. rewrite E in Hc. cbn in Hc. inversion Hc; subst cr'. cbn in Hr.
+      rewrite Es in Hr. destruct Hr as [Hr|Hr]; [|discriminate]. apply (O k cr k'); [exact E|left; exact Hr].
+    + injection H as <-.
+      change (c_find k (upd_caller k0 (with_stat SStored) st) = Some cr') in Hc. rewrite c_find_upd in Hc.
+      destruct (k =? k0) eqn:Ek; [|apply (O k cr' k' Hc Hr)].
+      apply Z.eqb_eq in Ek. subst k0. rewrite E in Hc. inversion Hc; subst cr'. cbn in Hr.
+      destruct Hr as [Hr|Hr]; [|discriminate]. apply (O k cr k' E). left. exact Hr.
   - cbn [step] in H. destruct (c_find k0 st) as [cr|] eqn:E; [|discriminate].
     destruct (_ && _) eqn:Er; [|discriminate]. injection H as <-.
     change (c_find k (upd_caller k0 with_enq st) = Some cr') in Hc. rewrite c_find_upd in Hc.
@@ -569,13 +671,14 @@ Proof.
     destruct Hr as [Hr|Hr]; [|rewrite Hsk in Hr; discriminate].
     inversion Hr; subst prov.
     (* the reply was produced for request k', which drew the same index and is still alive *)
-    destruct (i_infl _ _ I i k' Hx) as (cr2 & Hc2 & Hk2).
+    destruct (i_infl _ _ I i k' Hx) as (cr2 & Hc2 & Hk2 & He2).
     destruct (Z.eq_dec k' k) as [|Hne]; [assumption|]. exfalso.
     destruct (D k' k cr2 crk Hc2 Hck Hne) as [X|X]; [congruence| |].
-    + rewrite dead_eq in X. unfold dead_c in X. destruct (cstat cr2); try discriminate.
+    + rewrite harmless_eq in X. unfold harmless_c, dead_c in X. rewrite He2 in X.
+      destruct (cstat cr2); try discriminate. cbn in X.
       apply andb_true_iff in X. destruct X as [_ X]. apply negb_true_iff in X.
       apply (has_reply_for_false_In _ _ X i Hx).
-    + rewrite dead_eq, Hsk in X. discriminate.
+    + rewrite harmless_eq in X. unfold harmless_c, dead_c in X. rewrite Hsk in X. discriminate.
   - cbn [step] in H. destruct (c_find k0 st) as [cr|] eqn:E; [|discriminate].
     destruct (cstat cr) eqn:Es; try discriminate. destruct (cbox cr) as [o|] eqn:Eb; [|discriminate].
     injection H as <-.
@@ -644,18 +747,33 @@ Proof.
   rewrite Z.mod_small in M by lia. lia.
 Qed.
 
+Lemma others_near_harmless c n st k cr :
+  mask c = 2 ^ n - 1 -> 0 <= n -> inv c st -> c_find k st = Some cr ->
+  others_near c st k cr = true -> others_harmless st k cr = true.
+Proof.
+  intros Hm Hn I Hk W. unfold others_near, others_harmless in *. rewrite forallb_forall in *.
+  intros [k2 c2] Hin. specialize (W _ Hin). cbn [fst snd] in *.
+  destruct (k2 =? k); [reflexivity|]. cbn [orb] in *.
+  destruct (harmless st k2 c2); [apply orb_true_r|]. rewrite orb_false_r in *.
+  apply andb_true_iff in W. destruct W as [W1 W2]. apply Z.ltb_lt in W1. apply Z.leb_le in W2.
+  destruct (i_ids _ _ I _ _ Hin) as (_ & _ & Hi2).
+  destruct (i_ids _ _ I _ _ (c_find_In _ _ _ Hk)) as (_ & _ & Hi).
+  apply negb_true_iff. apply keqb_false. intros E.
+  assert (E2 : snd (ckey c2) = snd (ckey cr)) by (rewrite E; reflexivity).
+  rewrite Hi, Hi2, Hm in E2. revert E2.
+  destruct (Z_lt_le_dec (cdraw c2) (cdraw cr)).
+  - apply index_differs; [exact Hn|lia].
+  - intros E2. symmetry in E2. revert E2. apply index_differs; [exact Hn|lia].
+Qed.
+
 Lemma window_step_no_reuse c n st l :
   mask c = 2 ^ n - 1 -> 0 <= n -> inv c st ->
   window_step c st l = true -> no_reuse_step c st l = true.
 Proof.
-  intros Hm Hn I W. destruct l; try reflexivity.
-  cbn [window_step no_reuse_step] in *. rewrite forallb_forall in *.
-  intros [k cr] Hin. specialize (W _ Hin). cbn [fst snd] in *.
-  destruct (dead st k cr); [apply orb_true_r|]. rewrite orb_false_r in *.
-  apply Z.leb_le in W. destruct (i_ids _ _ I _ _ Hin) as [Hk Hi].
-  apply negb_true_iff. apply keqb_false. intros E.
-  assert (E2 : snd (ckey cr) = index_of (counter st + 1) (mask c)) by (rewrite E; reflexivity).
-  rewrite Hi, Hm in E2. revert E2. apply index_differs; [exact Hn|lia].
+  intros Hm Hn I W. destruct l; try reflexivity; cbn [window_step no_reuse_step] in *;
+    destruct (c_find k st) as [cr|] eqn:E; try reflexivity.
+  - destruct (registers c st cr); [|reflexivity]. apply (others_near_harmless c n st k cr Hm Hn I E W).
+  - destruct (cstat cr); try reflexivity. apply (others_near_harmless c n st k cr Hm Hn I E W).
 Qed.
 
 Lemma window_no_reuse_from c n : mask c = 2 ^ n - 1 -> 0 <= n ->
@@ -741,13 +859,13 @@ Proof.
   exists st. split; [reflexivity|]. split; [apply (swapped_at_sound _ _ H1)|exact H2].
 Qed.
 
-(* C09_full_refuted_udp: one pending call and mask+1 = 32768 further calls on the connection:
-   the last of them returns the response to request 1, and caller 1 is left waiting with no
-   table entry *)
-Theorem full_refuted_udp :
-  exists st, run cfg_udp init (wrap_witness (Z.to_nat mask15)) = Some st /\ swapped st /\
+(* C09_full_refuted_udp_old: the allocation of rpc/udp before 7acbe6f (store overwrites): one pending call
+   and mask+1 = 32768 further calls on the connection: the last of them returns the response to
+   request 1, and caller 1 is left waiting with no table entry *)
+Theorem full_refuted_udp_old :
+  exists st, run cfg_udp_old init (wrap_witness (Z.to_nat mask15)) = Some st /\ swapped st /\
              orphan_b st 1 = true.
-Proof. apply (refuted_check_sound cfg_udp _ 32769 1). vm_compute. reflexivity. Qed.
+Proof. apply (refuted_check_sound cfg_udp_old _ 32769 1). vm_compute. reflexivity. Qed.
 
 (* the other face: the late call is answered first; the reply to request 1 is then dropped
    although caller 1 is still waiting *)
@@ -757,13 +875,63 @@ Definition lost_check (c : cfg) (tr : list label) (a : Z) : bool :=
   | None => false
   end.
 
-Theorem lost_response_udp :
-  lost_check cfg_udp (wrap_witness_lost (Z.to_nat mask15)) 1 = true.
+Theorem lost_response_udp_old :
+  lost_check cfg_udp_old (wrap_witness_lost (Z.to_nat mask15)) 1 = true.
+Proof. vm_compute. reflexivity. Qed.
+
+(* ------------------------------------------------------------------ the repaired allocation *)
+(* with skip_pending a store never replaces or removes an entry: every entry of the table is still there,
+   under the same holder, after any LStore -- for every state, guard or no guard *)
+Theorem store_keeps_entries : forall c st k st' i h,
+  skip_pending c = true -> step c st (LStore k) = Some st' ->
+  t_find i (pending st) = Some h -> t_find i (pending st') = Some h.
+Proof.
+  intros c st k st' i h Hs H Hf. cbn [step] in H.
+  destruct (c_find k st) as [cr|]; [|discriminate]. destruct (cstat cr); try discriminate.
+  rewrite Hs in H. cbn [andb] in H.
+  destruct (t_find (ckey cr) (pending st)) as [h'|] eqn:Ek.
+  - destruct (cenq cr); [discriminate|]. injection H as <-. exact Hf.
+  - injection H as <-. cbn [pending set_pending]. rewrite t_find_store.
+    destruct (keqb i (ckey cr)) eqn:E; [|exact Hf]. apply keqb_spec in E. subst i. congruence.
+Qed.
+
+(* ... so the caller that registered it keeps it until the entry is consumed by a delivery, deleted by a
+   cancellation or failed by Close: a registering LStore finds its index free *)
+Theorem store_registers_on_free_index : forall c st k cr st',
+  skip_pending c = true -> c_find k st = Some cr -> step c st (LStore k) = Some st' ->
+  (t_find (ckey cr) (pending st) = None /\ t_find (ckey cr) (pending st') = Some k) \/
+  (exists h, t_find (ckey cr) (pending st) = Some h /\ pending st' = pending st /\ counter st' = counter st + 1).
+Proof.
+  intros c st k cr st' Hs Hk H. cbn [step] in H. rewrite Hk in H. destruct (cstat cr); try discriminate.
+  rewrite Hs in H. cbn [andb] in H.
+  destruct (t_find (ckey cr) (pending st)) as [h'|] eqn:Ek.
+  - destruct (cenq cr); [discriminate|]. injection H as <-. right. exists h'. auto.
+  - injection H as <-. left. split; [reflexivity|]. cbn [pending set_pending]. rewrite t_find_store, keqb_refl. reflexivity.
+Qed.
+
+(* the schedule of the old refutation against the repaired allocation: the late call's first store is
+   refused, it registers under the next index, and both callers get their own replies *)
+Definition new_alloc_check (n : nat) : bool :=
+  match run cfg_udp init (wrap_witness_new n) with
+  | Some st =>
+      own_b st && negb (orphan_b st 1) &&
+      match c_find 1 st, c_find (2 + Z.of_nat n) st with
+      | Some a, Some b =>
+          match cstat a, cstat b with
+          | SDone (OResp (Some 1)), SDone (OResp (Some k)) => (k =? 2 + Z.of_nat n) && (snd (ckey b) =? 2)
+          | _, _ => false
+          end
+      | _, _ => false
+      end
+  | None => false
+  end.
+
+Theorem wrap_schedule_repaired : new_alloc_check (Z.to_nat mask15) = true.
 Proof. vm_compute. reflexivity. Qed.
 
 (* with one call fewer the same schedule is covered by the guard (on a small mask, so that
    the guard can be evaluated) *)
-Definition cfg_tiny : cfg := {| mask := 3; early_enq := false |}.
+Definition cfg_tiny : cfg := {| mask := 3; early_enq := false; skip_pending := false |}.
 
 Lemma tiny_window_ok : window cfg_tiny init ([LAlloc 0; LStore 1; LEnq 1] ++ quick_calls 2 3) = true.
 Proof. vm_compute. reflexivity. Qed.
@@ -772,8 +940,9 @@ Lemma tiny_window_fails : window cfg_tiny init (wrap_witness 3) = false /\ no_re
 Proof. split; vm_compute; reflexivity. Qed.
 
 (* ------------------------------------------------------------------ used by the replay driver *)
-(* the guards quantify (... || dead) over all callers: restricting the state to the callers that
-   are not dead does not change their value (extract/drv_c09.ml evaluates them that way) *)
+(* the guards quantify (... || harmless) over all callers and dead callers are harmless: restricting the
+   state to the callers that are not dead does not change their value (extract/drv_c09.ml evaluates
+   them that way) *)
 Definition restrict_live (st : mstate) : mstate :=
   set_callers st (filter (fun kc => negb (dead st (fst kc) (snd kc))) (callers st)).
 
@@ -784,18 +953,29 @@ Proof.
   destruct (p x) eqn:E; cbn [forallb]; rewrite IH; [reflexivity|]. rewrite (H x E). reflexivity.
 Qed.
 
-Lemma guards_ignore_dead c st l :
-  no_reuse_step c (restrict_live st) l = no_reuse_step c st l /\
-  window_step c (restrict_live st) l = window_step c st l.
+Lemma guards_ignore_dead c st k cr :
+  others_harmless (restrict_live st) k cr = others_harmless st k cr /\
+  others_near c (restrict_live st) k cr = others_near c st k cr /\
+  registers c (restrict_live st) cr = registers c st cr.
 Proof.
-  destruct l; try (split; reflexivity). cbn [no_reuse_step window_step restrict_live set_callers callers counter].
-  split.
-  - change (forallb (fun kc => negb (keqb (ckey (snd kc)) (dest, index_of (counter st + 1) (mask c))) || dead st (fst kc) (snd kc))
-                    (filter (fun kc => negb (dead st (fst kc) (snd kc))) (callers st)) = 
-            forallb (fun kc => negb (keqb (ckey (snd kc)) (dest, index_of (counter st + 1) (mask c))) || dead st (fst kc) (snd kc)) (callers st)).
-    apply forallb_filter_skip. intros x Hx. apply negb_false_iff in Hx. rewrite Hx. apply orb_true_r.
-  - change (forallb (fun kc => (counter st + 1 - fst kc <=? mask c) || dead st (fst kc) (snd kc))
+  split; [|split; [|reflexivity]].
+  - unfold others_harmless, restrict_live. cbn [callers set_callers].
+    change (forallb (fun kc => (fst kc =? k) || negb (keqb (ckey (snd kc)) (ckey cr)) || harmless st (fst kc) (snd kc))
                     (filter (fun kc => negb (dead st (fst kc) (snd kc))) (callers st)) =
-            forallb (fun kc => (counter st + 1 - fst kc <=? mask c) || dead st (fst kc) (snd kc)) (callers st)).
-    apply forallb_filter_skip. intros x Hx. apply negb_false_iff in Hx. rewrite Hx. apply orb_true_r.
+            forallb (fun kc => (fst kc =? k) || negb (keqb (ckey (snd kc)) (ckey cr)) || harmless st (fst kc) (snd kc)) (callers st)).
+    apply forallb_filter_skip. intros x Hx. apply negb_false_iff in Hx. rewrite (dead_harmless _ _ _ Hx). apply orb_true_r.
+  - unfold others_near, restrict_live. cbn [callers set_callers].
+    change (forallb (fun kc => (fst kc =? k) || ((0 <? Z.abs (cdraw cr - cdraw (snd kc))) && (Z.abs (cdraw cr - cdraw (snd kc)) <=? mask c)) || harmless st (fst kc) (snd kc))
+                    (filter (fun kc => negb (dead st (fst kc) (snd kc))) (callers st)) =
+            forallb (fun kc => (fst kc =? k) || ((0 <? Z.abs (cdraw cr - cdraw (snd kc))) && (Z.abs (cdraw cr - cdraw (snd kc)) <=? mask c)) || harmless st (fst kc) (snd kc)) (callers st)).
+    apply forallb_filter_skip. intros x Hx. apply negb_false_iff in Hx. rewrite (dead_harmless _ _ _ Hx). apply orb_true_r.
+Qed.
+
+(* with skip_pending the guard is never about a call that is still pending in the table: when a store
+   registers, its index is free, so no other call holds it *)
+Theorem registering_store_meets_no_pending_holder : forall c st cr k2,
+  skip_pending c = true -> registers c st cr = true -> t_find (ckey cr) (pending st) <> Some k2.
+Proof.
+  intros c st cr k2 Hs Hr. unfold registers in Hr. rewrite Hs in Hr. cbn [andb] in Hr.
+  destruct (t_find (ckey cr) (pending st)); [discriminate|discriminate].
 Qed.
